@@ -102,9 +102,9 @@ def T(a):
 # --------------------------------------------------------------------------
 # features of key pairs (bucket component): which key-identity corner a case touches
 # --------------------------------------------------------------------------
-FEATURE_ORDER = ['nan', 'float32', 'bool~num', 'untyped~other', 'dt-cross-type', 'dt-tz~notz', 'bin-cross', 'qname~str',
-                 'num-inexact', 'eq-cross:num', 'eq-cross:str', 'eq-cross:dt', 'eq-cross:dur', 'eq-cross:qname',
-                 'negzero']
+FEATURE_ORDER = ['float32', 'bool~num', 'dt-cross-type', 'bin-cross', 'nan-float', 'nan', 'untyped~other', 'dt-tz~notz',
+                 'qname~str', 'num-inexact', 'eq-cross:num', 'eq-cross:str', 'eq-cross:dt', 'eq-cross:dur',
+                 'eq-cross:qname', 'negzero']
 
 
 def _float_inexact(a):
@@ -114,7 +114,7 @@ def _float_inexact(a):
         x = float(a[2])
     except ValueError:
         return False
-    return M._f32(x) != x
+    return x == x and M._f32(x) != x          # NaN and the infinities are exact
 
 
 def pair_features(a, b):
@@ -122,7 +122,7 @@ def pair_features(a, b):
     fs = set()
     ta, tb = a[1], b[1]
     if M.is_nan(a) or M.is_nan(b):
-        fs.add('nan')
+        fs.add('nan-float' if (M.is_nan(a) and ta == 'float') or (M.is_nan(b) and tb == 'float') else 'nan')
     if _float_inexact(a) or _float_inexact(b):
         fs.add('float32')
     if a is b:
@@ -388,6 +388,12 @@ def _parser():
     return _PARSER[0]
 
 
+def _bucket(feature, check, kind, opname):
+    if feature == 'plain':
+        return f'C15/{check}/{kind}/{opname}'
+    return f'C15/key:{feature}/{check}/{kind}/{opname}'
+
+
 class Env:
     def __init__(self):
         self.parser = _parser()
@@ -627,8 +633,16 @@ class Ev:
         kt, k = self.key(e[2])
         if vr[0] == 'v':
             _collect_keys(vr[1], self.s.keys)
-        self.s.bag = True
-        return self._apply(f'map:find({vt}, {kt})', (vr,), lambda: (M.map_find(vr[1], k),))
+        outer = self.s.ops[0] == 'm.find'
+        if outer:
+            self.s.bag = 'members'
+
+        def fn():
+            r = M.map_find(vr[1], k)
+            if not outer and len(r[1]) > 1:
+                raise NoVerdict('member order of a nested map:find')
+            return (r,)
+        return self._apply(f'map:find({vt}, {kt})', (vr,), fn)
 
     def op_m_foreach(self, e):
         mt, mr = self.expr(e[1])
@@ -878,7 +892,12 @@ def _evaluate(env: Env, text):
 
 def _compare(exp, obs, step: Step):
     """-> None or (kind, expected-text, observed-text)"""
-    if step.bag:
+    if step.bag == 'members':          # map:find: one array whose member order is implementation-dependent
+        if len(obs) != 1 or obs[0][0] != 'A':
+            return 'item-kind', show(exp), show(obs)
+        bag = lambda a: tuple(sorted((M.canon(v, step.loose) for v in a[1]), key=repr))
+        ce, co = bag(exp[0]), bag(obs[0])
+    elif step.bag:
         ce, co = M.canon_bag(exp, step.loose), M.canon_bag(obs, step.loose)
     else:
         ce, co = M.canon(exp, step.loose), M.canon(obs, step.loose)
@@ -908,17 +927,19 @@ def run_step(env: Env, e, idx, check, rec=None):
     feature = None
 
     def bucket(kind):
+        """plain cases: C15/<check>/<kind>/<ops>; cases touching a key-identity corner: C15/key:<corner>/<check>/<kind>/<ops>"""
         nonlocal feature
         if feature is None:
             feature = key_feature(step.keys)
-        return f'C15/{check}/{feature}/{opname}/{kind}'
+        return _bucket(feature, check, kind, opname)
 
     if rec is not None:
         rec.cls('step')
         for o in set(step.ops):
             rec.cls('op:' + o)
     if got[0] == 'x':
-        discs.append(Disc(escape_bucket('C15', got[1]) + f'/{check}/{opname}', 'value or XPath error', repr(got[1]), where))
+        discs.append(Disc(bucket('escape:' + escape_bucket('C15', got[1]).split('/escape/', 1)[1].replace('/', '.')),
+                          'value or XPath error', repr(got[1]), where))
     elif res[0] == 'nv':
         if rec is not None:
             rec.cls('step:no-verdict')
@@ -951,7 +972,9 @@ def run_step(env: Env, e, idx, check, rec=None):
                         len(exp[0][1]) <= 10 and not step.loose:
                     kind = 'M' if exp[0][0] == 'm' else 'A'
                     pool = env.pool[kind]
-                    ent = {'obj': got[2][0] if isinstance(got[2], list) else got[2], 'model': exp[0], 'uses': 0}
+                    # (a result compared as a bag is pooled with the member order actually observed)
+                    ent = {'obj': got[2][0] if isinstance(got[2], list) else got[2],
+                           'model': obs[0] if step.bag else exp[0], 'uses': 0}
                     if len(pool) < POOL_CAP:
                         pool.append(ent)
                     else:
@@ -1013,7 +1036,7 @@ def judge_hist(case, rec: Recorder | None = None):
     if rec is not None:
         nontrivial = bool(env.hclasses & {'hist:operand-reuse', 'hist:cross-type-collision', 'hist:oob-index'})
         rec.case(case['steps'], nontrivial=nontrivial, sample={'check': 'hist', 'case': case},
-                 classes=['hist'] + sorted(env.hclasses))
+                 classes=['hist'] + sorted(env.hclasses), n=len(case['steps']))
     return discs
 
 
@@ -1049,9 +1072,9 @@ def judge_samekey(case, rec: Recorder | None = None):
     env = Env()
     for name, e in _samekey_exprs(k1, k2):
         for d in run_step(env, e, 0, 'samekey', None):
-            if '/samekey/' in d.bucket and '/escape/' not in d.bucket and '/operand-mutated/' not in d.bucket:
-                parts = d.bucket.split('/')
-                d.bucket = f'C15/samekey/{feature}/{k1[1]}~{k2[1]}/{name}/{parts[-1]}'
+            if '/operand-mutated/' not in d.bucket:
+                kind = d.bucket.split('/')[-2]
+                d.bucket = _bucket(feature, 'samekey', kind, f'{name}/{k1[1]}~{k2[1]}')
             discs.append(d)
     if rec is not None:
         same = M.same_key(T(k1), T(k2))
@@ -1065,6 +1088,22 @@ def judge_samekey(case, rec: Recorder | None = None):
 # deq: fn:deep-equal on value pairs
 # --------------------------------------------------------------------------
 
+def _collect_atoms(vspec, out):
+    for it in vspec:
+        if it[0] == 'a':
+            if T(it) not in out:
+                out.append(T(it))
+        elif it[0] == 'm':
+            for k, v in it[1]:
+                _collect_atoms([k], out)
+                _collect_atoms(v, out)
+        elif it[0] == 'A':
+            for v in it[1]:
+                _collect_atoms(v, out)
+        elif it[0] == 'C':
+            _collect_atoms(it[1], out)
+
+
 def judge_deq(case, rec: Recorder | None = None):
     env = Env()
     step = Step()
@@ -1075,7 +1114,10 @@ def judge_deq(case, rec: Recorder | None = None):
     if res[0] == 'v':
         want = res[1][0][2]
         classes.append('deq:expect-' + want)
-        feature = key_feature(step.keys)
+        atoms = list(step.keys)         # every atom of both values: deep-equal compares them all
+        for v in (case['v1'], case['v2']):
+            _collect_atoms(v, atoms)
+        feature = key_feature(atoms)
         kind = want + '-expected'
         if want == 'false':
             # is everything up to and including the first map/array item equal?  (the rest decides)
@@ -1088,11 +1130,12 @@ def judge_deq(case, rec: Recorder | None = None):
                 pass
         got = _evaluate(env, text)
         if got[0] == 'x':
-            discs.append(Disc(escape_bucket('C15', got[1]) + '/deq', want, repr(got[1]), text))
+            discs.append(Disc(_bucket(feature, 'deq', 'escape:' + escape_bucket('C15', got[1]).split('/escape/', 1)[1].replace('/', '.'), want),
+                              want, repr(got[1]), text))
         elif got[0] == 'e':
-            discs.append(Disc(f'C15/deq/{feature}/error:{got[1]}', want, str(got[2])[:200], text))
+            discs.append(Disc(_bucket(feature, 'deq', 'error:' + got[1], want), want, str(got[2])[:200], text))
         elif M.canon(got[1]) != M.canon(res[1]):
-            discs.append(Disc(f'C15/deq/{feature}/{kind}', want, show(got[1]), text))
+            discs.append(Disc(_bucket(feature, 'deq', kind, 'deq'), want, show(got[1]), text))
     else:
         classes.append('deq:no-verdict' if res[0] == 'nv' else 'deq:error')
     if rec is not None:
@@ -1366,9 +1409,6 @@ def _edit(s, v, kp):
     return v
 
 
-_DEQ_ATOMS = [a for a in ALL_ATOMS if a[1] in ('integer', 'string', 'boolean', 'double', 'decimal', 'anyURI')][:40]
-
-
 def _strip_refs(v):          # no pool references in the deq sub-check
     out = []
     for it in v:
@@ -1387,10 +1427,7 @@ def _strip_refs(v):          # no pool references in the deq sub-check
 
 def decode_deq(data):
     s = Src(data)
-    kp = []
-    for a in s.many(lambda: s.pick(_DEQ_ATOMS), 2, 6):
-        if a not in kp:
-            kp.append(a)
+    kp = g_kpool(s)
     v1 = _strip_refs(g_value(s, kp, 2))
     c = s.n(10)
     if c < 3:
@@ -1430,13 +1467,13 @@ def _pairs():
 def jobs(tier, seed):
     q = tier == 'quick'
     out = []
-    nh, per_h = (9, 300) if q else (12, 4000)
-    nd, per_d = (2, 1500) if q else (2, 20000)
+    nh, per_h = (8, 340) if q else (12, 7000)
+    nd, per_d = (2, 1500) if q else (2, 30000)
+    ns = 6
     for i in range(nh):
         out.append({'check': 'hist', 'shard': i, 'n': per_h, 'seed': derive_seed(seed, 'C15', 'hist', i)})
-    ns = 4
-    for i in range(ns):
-        out.append({'check': 'samekey', 'shard': i, 'of': ns})
+        if i < ns:      # interleaved so that the long exhaustive shards start early
+            out.append({'check': 'samekey', 'shard': i, 'of': ns})
     for i in range(nd):
         out.append({'check': 'deq', 'shard': i, 'n': per_d, 'seed': derive_seed(seed, 'C15', 'deq', i)})
     return out
